@@ -340,6 +340,8 @@ def verify_context(run):
                    "outer body: by induction on the nesting depth every named key has its entry value after the outermost exit, on normal and exceptional exits alike", fn=fq))
 
 
+import re
+CACHING = re.compile(r"(^|\.)(cache|lru_cache|cached_property|memoize|memoise)\b")
 SETTINGS = ("float_type", "decimals", "atol", "rtol", "alias", "logger", "factory_manager", "_factory_manager")
 
 
@@ -347,7 +349,7 @@ def verify_reads_at_call_time(run):
     """static: helpers observe the temporary values only inside the context = every read of a setting happens inside a function body at call
     time: never in a default argument / decorator / class or module level statement, and never stored into an attribute or global (a cache)"""
     src = run.src
-    bad, reads = [], 0
+    bad, reads, readers = [], 0, {}
     for m, tree in src.mod.items():
         parents = {}
         for node in ast.walk(tree):
@@ -359,8 +361,9 @@ def verify_reads_at_call_time(run):
                 cur, fn_, stmt_, in_default = node, None, None, False
                 while cur in parents:
                     par = parents[cur]
-                    if isinstance(par, (ast.FunctionDef, ast.Lambda)) and fn_ is None:
-                        if cur in getattr(par.args, "defaults", []) + [d for d in getattr(par.args, "kw_defaults", []) if d is not None] or cur in getattr(par, "decorator_list", []):
+                    if isinstance(par, (ast.FunctionDef, ast.AsyncFunctionDef, ast.Lambda)) and fn_ is None:
+                        # a default value hangs below the `arguments` node, a decorator in decorator_list: both are evaluated once, at definition time
+                        if isinstance(cur, ast.arguments) or cur in getattr(par, "decorator_list", []) or cur is getattr(par, "returns", None):
                             in_default = True
                         else:
                             fn_ = par
@@ -377,10 +380,23 @@ def verify_reads_at_call_time(run):
                         if isinstance(x, ast.Attribute) and isinstance(x.ctx, ast.Store) and not (m == "library" and isinstance(fn_, ast.FunctionDef) and fn_.name in ("context",)):
                             bad.append(f"{where}: value derived from settings.{node.attr} stored in attribute `{ast.unparse(x)}` (a cache outlives the context)")
                 if isinstance(fn_, ast.FunctionDef):
+                    readers.setdefault(fn_.name, []).append(where)
+                    memo = [ast.unparse(d) for d in fn_.decorator_list if CACHING.search(ast.unparse(d))]
+                    if memo:
+                        bad.append(f"{where}: settings.{node.attr} read in `{fn_.name}`, whose result is memoised by @{memo[0]} (the cached value outlives the context)")
                     gl = {g for s_ in ast.walk(fn_) if isinstance(s_, ast.Global) for g in s_.names}
                     for t in tg:
                         if isinstance(t, ast.Name) and t.id in gl:
                             bad.append(f"{where}: value derived from settings.{node.attr} stored in global `{t.id}`")
+    for m, tree in src.mod.items():
+        for fn_ in ast.walk(tree):
+            if isinstance(fn_, ast.FunctionDef) and any(CACHING.search(ast.unparse(d)) for d in fn_.decorator_list):
+                for c_ in ast.walk(fn_):
+                    if isinstance(c_, ast.Call):
+                        t = ast.unparse(c_.func)
+                        base, _, leaf = t.rpartition(".")
+                        if leaf in readers and base in ("", "self", "cls", "Op", "Operation", "representation", "settings"):
+                            bad.append(f"fuzzylite/{m}.py:{c_.lineno}: memoised `{fn_.name}` calls `{t}`, which reads the settings ({readers[leaf][0]})")
     run.add(static("library.settings/reads_at_call_time", not bad and reads > 0, "; ".join(bad) if bad else f"{reads} reads of settings.* - all inside function bodies at call time, none cached",
                    meta={"replay": {"module": N, "func": "replay_helpers", "kwargs": {}, "vars": {}}}))
 
